@@ -413,6 +413,221 @@ fn check_wall_result(
     }
 }
 
+// ---- audit 2026-09-30: the stepping failure set against a rule that does not mention the filters ------
+/// MIN_UTC <= (secs, frac) <= MAX_UTC, in 128-bit arithmetic (u64 day counts)
+fn in_utc_range_wide(i: i128, frac: i64) -> bool {
+    i >= s_min() as i128 && i <= s_max() as i128 && !(i == s_max() as i128 && frac >= NS)
+}
+fn nominal_wide(w: i128) -> bool {
+    w >= s_min() as i128 && w <= s_max() as i128
+}
+/// day step by `n > 0`: a result exists iff the stepped instant is in MIN_UTC..=MAX_UTC and the stepped wall
+/// clock is a reading of the nominal range (theorem day_stepping_vs_rule); the steps on which the pure
+/// instant rule is false are counted under the prefix EXCEPTION (theorem day_stepping_exceptions)
+fn rule_oracle_days(c: &mut Ctx, fl: &mut Fails, tl: &mut Tally, key: &str, u: &NaiveDateTime, off: i32, add: bool, n: u64, r: &Result<Option<DateTime<FixedOffset>>, ()>) {
+    if n == 0 {
+        if !matches!(r, Ok(Some(z)) if z.naive_utc() == *u && off_of(z) == off as i64) {
+            fl.hit(c, "Days(0) must return the value itself", key);
+        }
+        return;
+    }
+    let frac = u.time().nanosecond() as i64;
+    let step = n as i128 * 86_400;
+    let i2 = inst(u) as i128 + if add { step } else { -step };
+    let w2 = i2 + off as i128;
+    let (inst_ok, wall_ok) = (in_utc_range_wide(i2, frac), nominal_wide(w2));
+    let some = matches!(r, Ok(Some(_)));
+    if r.is_err() || some != (inst_ok && wall_ok) {
+        fl.hit(c, "day stepping: a result must exist exactly when the stepped instant is in MIN_UTC..=MAX_UTC and the stepped wall clock is in the nominal range", &format!("{key} (instant ok {inst_ok}, wall clock ok {wall_ok})"));
+    }
+    if inst_ok && !wall_ok {
+        tl.add(if add { "EXCEPTION(instant rule) checked_add_days refused: stepped instant in range, result would read the day after MAX" } else { "EXCEPTION(instant rule) checked_sub_days refused: stepped instant in range, result would read the day before MIN" });
+        if (add && off <= 0) || (!add && off >= 0) {
+            fl.hit(c, "day stepping: a headroom result with the instant in range needs an offset pointing outwards", key);
+        }
+    }
+}
+/// month step by `n > 0`: a result exists iff the stepped wall-clock year is a year of the nominal range and the
+/// stepped instant is in MIN_UTC..=MAX_UTC or is a leap-second representation in the last second of the range
+/// (theorem month_stepping_vs_rule; exceptions of the pure instant rule counted under EXCEPTION)
+fn rule_oracle_months(c: &mut Ctx, fl: &mut Fails, tl: &mut Tally, key: &str, u: &NaiveDateTime, off: i32, add: bool, n: u32, r: &Result<Option<DateTime<FixedOffset>>, ()>) {
+    if n == 0 {
+        if !matches!(r, Ok(Some(z)) if z.naive_utc() == *u && off_of(z) == off as i64) {
+            fl.hit(c, "Months(0) must return the value itself", key);
+        }
+        return;
+    }
+    let frac = u.time().nanosecond() as i64;
+    let w = wall_of(inst(u) + off as i64);
+    let t = w.y * 12 + w.m - 1 + if add { n as i64 } else { -(n as i64) };
+    let (y2, m2) = (t.div_euclid(12), t.rem_euclid(12) + 1);
+    let d2 = w.d.min(month_len(y2, m2));
+    let i2 = (day_num(y2, m2, d2) as i128 - EPOCH as i128) * 86_400 + w.sod as i128 - off as i128;
+    let year_ok = y2 >= MIN_YEAR as i64 && y2 <= MAX_YEAR as i64;
+    let inst_ok = in_utc_range_wide(i2, frac);
+    let over = i2 == s_max() as i128 && frac >= NS;
+    let some = matches!(r, Ok(Some(_)));
+    if r.is_err() || some != (year_ok && (inst_ok || over)) {
+        fl.hit(c, "month stepping: a result must exist exactly when the stepped wall-clock year is in range and the stepped instant is in MIN_UTC..=MAX_UTC (or a leap second in its last second)", &format!("{key} (year ok {year_ok}, instant ok {inst_ok}, leap-at-end {over})"));
+    }
+    if year_ok && over && some {
+        tl.add("EXCEPTION(instant rule) month stepping returned a value above MAX_UTC (leap second in the last second of the range)");
+    }
+    if !year_ok && inst_ok {
+        tl.add(if add { "EXCEPTION(instant rule) checked_add_months refused: stepped instant in range, result would read the day after MAX" } else { "EXCEPTION(instant rule) checked_sub_months refused: stepped instant in range, result would read the day before MIN" });
+    }
+}
+
+/// the text a writer must show for the wall clock `w` (independent calendar), nanosecond field `frac`
+fn want_year(y: i64) -> String {
+    if (0..=9999).contains(&y) { format!("{:04}", y) } else { format!("{}{:04}", if y < 0 { '-' } else { '+' }, y.abs()) }
+}
+fn want_frac(nano: i64) -> String {
+    if nano == 0 { String::new() } else if nano % 1_000_000 == 0 { format!(".{:03}", nano / 1_000_000) } else if nano % 1000 == 0 { format!(".{:06}", nano / 1000) } else { format!(".{:09}", nano) }
+}
+fn want_off(off: i32, colon: bool, secs: bool) -> String {
+    let (sg, o) = if off < 0 { ('-', -off) } else { ('+', off) };
+    let (h, m, s) = (o / 3600, o / 60 % 60, o % 60);
+    let sep = if colon { ":" } else { "" };
+    if secs && s != 0 { format!("{sg}{h:02}{sep}{m:02}{sep}{s:02}") } else { format!("{sg}{h:02}{sep}{m:02}") }
+}
+const WD3: [&str; 7] = ["Mon", "Tue", "Wed", "Thu", "Fri", "Sat", "Sun"];
+const MO3: [&str; 12] = ["Jan", "Feb", "Mar", "Apr", "May", "Jun", "Jul", "Aug", "Sep", "Oct", "Nov", "Dec"];
+
+/// formatting, derived views and zone changes of one value: correspondence ops `znf.*` + direct oracles
+fn check_texts_and_views(c: &mut Ctx, fl: &mut Fails, tl: &mut Tally, u: &NaiveDateTime, off: i32) {
+    use chrono::SecondsFormat;
+    let z = mk_z(u, off);
+    let frac = u.time().nanosecond() as i64;
+    let w = wall_of(inst(u) + off as i64);
+    let headroom = w.n < min_day() || w.n > max_day();
+    let key = format!("{} {off}", enc_n(u));
+    let t = |r: Result<String, ()>| match r { Ok(s) => hex(s.as_bytes()), Err(()) => "panic".to_string() };
+    let r3 = guard(|| z.to_rfc3339());
+    let r3s = guard(|| z.to_rfc3339_opts(SecondsFormat::Secs, true));
+    let r3m = guard(|| z.to_rfc3339_opts(SecondsFormat::Millis, false));
+    let r2 = guard(|| z.to_rfc2822());
+    let dbg = guard(|| format!("{:?}", z));
+    let disp = guard(|| z.to_string());
+    let ser = guard(|| serde_json::to_string(&z).map(|s| s.trim_matches('"').to_string()).unwrap_or_else(|_| "<serde error>".into()));
+    c.op(&format!("znf.text {key}"), &[t(r3.clone()), t(r3s.clone()), t(r3m.clone()), t(r2.clone()), t(dbg.clone()), t(disp.clone()), t(ser.clone())].join(" | "));
+    tl.add(if headroom { "texts:wall-clock-in-headroom" } else { "texts:wall-clock-in-range" });
+    // independent expectation
+    let (leap, nano) = if frac >= NS { (1, frac - NS) } else { (0, frac) };
+    let date = format!("{}-{:02}-{:02}", want_year(w.y), w.m, w.d);
+    let hms = format!("{:02}:{:02}:{:02}", w.sod / 3600, w.sod / 60 % 60, w.sod % 60 + leap);
+    let exp_dbg = format!("{date}T{hms}{}{}", want_frac(nano), want_off(off, true, true));
+    let exp_disp = format!("{date} {hms}{} {}", want_frac(nano), want_off(off, true, true));
+    if dbg.as_deref() != Ok(exp_dbg.as_str()) || disp.as_deref() != Ok(exp_disp.as_str()) {
+        fl.hit(c, "Debug / Display of a zone-aware value is not the wall clock (instant + offset) followed by the offset", &format!("znf.text {key}: {dbg:?} | {disp:?} expected {exp_dbg} | {exp_disp}"));
+    }
+    // RFC 3339: date T time, then the offset (whole minutes are shown exactly; the rounding of sub-minute offsets is C10's)
+    let pre = format!("{date}T{hms}");
+    let r3_ok = |r: &Result<String, ()>, fr: &str, zed: bool| match r {
+        Ok(s) => s.starts_with(&pre) && s[pre.len()..].starts_with(fr) && (off % 60 != 0 || s[pre.len() + fr.len()..] == *(if zed && off == 0 { "Z".to_string() } else { want_off(off, true, false) })),
+        Err(()) => false,
+    };
+    if !r3_ok(&r3, &want_frac(nano), false) || !r3_ok(&r3s, "", true) || !r3_ok(&r3m, &format!(".{:03}", nano / 1_000_000), false) || ser != guard(|| z.to_rfc3339_opts(SecondsFormat::AutoSi, true)) {
+        fl.hit(c, "RFC 3339 text / Serialize of a zone-aware value does not show the wall clock (instant + offset)", &format!("znf.text {key}: {r3:?} {r3s:?} {r3m:?} {ser:?} expected to start with {pre}"));
+    }
+    // RFC 2822: panics exactly for wall-clock years outside 0..=9999, else weekday, day, month, year, time of the wall clock
+    match &r2 {
+        Err(()) => {
+            if (0..=9999).contains(&w.y) {
+                fl.hit(c, "to_rfc2822 panicked although the wall-clock year is in 0..=9999", &format!("znf.text {key}"));
+            }
+            tl.add("texts:rfc2822 panic (wall-clock year outside 0..=9999, documented)");
+        }
+        Ok(s) => {
+            let exp = format!("{}, {} {} {:04} {} ", WD3[w.wd as usize], w.d, MO3[(w.m - 1) as usize], w.y, hms);
+            if !(0..=9999).contains(&w.y) || !s.starts_with(&exp) || (off % 60 == 0 && s[exp.len()..] != want_off(off, false, false)) {
+                fl.hit(c, "to_rfc2822 does not show the wall clock (instant + offset)", &format!("znf.text {key}: {s} expected {exp}.."));
+            }
+        }
+    }
+    // format / format_with_items
+    for (i, fmt) in ["%Y-%m-%dT%H:%M:%S%.f %:z", "%G-W%V-%u %j %U %W %a %b %e", "%C %y %I %l %p %M %S %f %D %F %T %R", "%+", "%A %B %h %P %:::z %::z %s %3f %6f %9f %.3f"].iter().enumerate() {
+        if i > 1 && !c.rng.chance(1, 3) {
+            continue;
+        }
+        let got = guard(|| {
+            use std::fmt::Write;
+            let mut s = String::new();
+            write!(s, "{}", z.format(fmt)).map(|_| s)
+        });
+        let shown = match &got { Ok(Ok(s)) => hex(s.as_bytes()), Ok(Err(_)) => "err".into(), Err(()) => "panic".into() };
+        c.op(&format!("znf.fmt {} {key}", hex(fmt.as_bytes())), &shown);
+        let exp = match i {
+            0 => Some(format!("{}-{:02}-{:02}T{hms}{} {}", want_year(w.y), w.m, w.d, want_frac(nano), want_off(off, true, false))),
+            1 => {
+                // Sunday-based / Monday-based week of the year of the wall-clock date
+                let jan1 = wall_of((day_num(w.y, 1, 1) - EPOCH) * 86_400);
+                let wk_sun = (w.o + 6 - (w.wd + 1) % 7) / 7;
+                let wk_mon = (w.o + 6 - w.wd) / 7;
+                let _ = jan1;
+                Some(format!("{}-W{:02}-{} {:03} {:02} {:02} {} {} {:>2}", want_year(w.iy), w.iw, w.wd + 1, w.o, wk_sun, wk_mon, WD3[w.wd as usize], MO3[(w.m - 1) as usize], w.d))
+            }
+            _ => None,
+        };
+        if let Some(e) = exp {
+            // whole-minute offsets only for the offset part of format 0 (%:z truncates sub-minute offsets: C12)
+            let ok = match &got { Ok(Ok(s)) => if i == 0 && off % 60 != 0 { s.starts_with(&e[..e.len() - 6]) } else { *s == e }, _ => false };
+            if !ok {
+                fl.hit(c, "format() of a zone-aware value does not show the wall clock (instant + offset)", &format!("znf.fmt {fmt} {key}: {got:?} expected {e}"));
+            }
+        } else if !matches!(got, Ok(Ok(_))) {
+            fl.hit(c, "format() of a zone-aware value panicked or failed", &format!("znf.fmt {fmt} {key}"));
+        }
+        // format_with_items on the same items is the same text
+        let items: Vec<chrono::format::Item> = chrono::format::StrftimeItems::new(fmt).collect();
+        let got2 = guard(|| {
+            use std::fmt::Write;
+            let mut s = String::new();
+            write!(s, "{}", z.format_with_items(items.iter())).map(|_| s)
+        });
+        if got2 != got {
+            fl.hit(c, "format_with_items differs from format on the same items", &format!("znf.fmt {fmt} {key}"));
+        }
+    }
+    // derived Datelike / Timelike views
+    let g2 = |f: &dyn Fn() -> (bool, u32)| match guard(|| f()) { Ok((b, v)) => vec![b as i64, v as i64], Err(()) => vec![PANIC, PANIC] };
+    let mut views = vec![g(|| z.month0() as i64), g(|| z.day0() as i64), g(|| z.ordinal0() as i64), g(|| z.quarter() as i64)];
+    views.extend(g2(&|| z.year_ce()));
+    views.extend(g2(&|| z.hour12()));
+    views.push(g(|| z.num_seconds_from_midnight() as i64));
+    c.op(&format!("znf.views {key}"), &join(&views));
+    let h = w.sod / 3600;
+    let exp = [w.m - 1, w.d - 1, w.o - 1, (w.m - 1) / 3 + 1, (w.y >= 1) as i64, if w.y >= 1 { w.y } else { 1 - w.y }, (h >= 12) as i64, if h % 12 == 0 { 12 } else { h % 12 }, w.sod];
+    if views != exp {
+        fl.hit(c, "derived accessors (month0, day0, ordinal0, quarter, year_ce, hour12, num_seconds_from_midnight) are not those of the wall clock", &format!("znf.views {key} -> {} expected {}", join(&views), join(&exp)));
+    }
+    // to_utc / fixed_offset / naive_utc / from_naive_utc_and_offset, and chains of with_timezone
+    let (zu, zf) = (z.to_utc(), z.fixed_offset());
+    let zn = DateTime::<FixedOffset>::from_naive_utc_and_offset(z.naive_utc(), *z.offset());
+    c.op(&format!("znf.tz {key}"), &format!("{} | {} | {} | {}", enc_z(&zu), enc_z(&zf), enc_n(&z.naive_utc()), enc_z(&zn)));
+    let (o2, o3) = (gen_off(c), gen_off(c));
+    let chain = z.with_timezone(&fo(o2)).with_timezone(&Utc).with_timezone(&fo(o3));
+    let back = z.with_timezone(&fo(o2)).with_timezone(&fo(off));
+    if zu.naive_utc() != *u || guard(|| zu.naive_local()) != Ok(*u) || zf != z || off_of(&zf) != off as i64 || zn != z || off_of(&zn) != off as i64
+        || chain.naive_utc() != *u || off_of(&chain) != o3 as i64 || back.naive_utc() != *u || off_of(&back) != off as i64 || chain != z
+    {
+        fl.hit(c, "to_utc / fixed_offset / from_naive_utc_and_offset / chains of with_timezone changed the instant or the zone", &format!("znf.tz {key} via {o2} {o3}"));
+    }
+    // the chained view reads the wall clock of instant + o3
+    let oc = obs_of(&chain);
+    check_value(c, fl, tl, u, o3, &oc);
+    // Timelike / Datelike of the headroom value through with_ymd_and_hms / from_local_datetime at the boundary:
+    // the wall clock read back builds the same value whenever it is in range
+    if let Ok(l) = guard(|| z.naive_local()) {
+        let r = guard(|| lr(fo(off).from_local_datetime(&l)).map_err(|_| ())).and_then(|x| x);
+        if r.as_ref().map(|o| o.map(|x| (x.naive_utc(), off_of(&x)))) != Ok(Some((*u, off as i64))) {
+            fl.hit(c, "from_local_datetime of the value's own wall clock is not the value", &format!("znf.tz {key}"));
+        }
+    } else if !headroom {
+        fl.hit(c, "naive_local panicked although the wall clock is in range", &format!("znf.tz {key}"));
+    }
+}
+
 pub fn run(c: &mut Ctx) {
     crate::aliases::c04(c);
     let mut fl = Fails(BTreeMap::new());
@@ -810,6 +1025,7 @@ pub fn run(c: &mut Ctx) {
             tl.add(&format!("{what}:{}", if n == 0 { "zero" } else if n > i32::MAX as u64 { "count>i32" } else { "count" }));
             // Days(0) on add returns `self` unfiltered (also a leap-second reading at the very end of MAX)
             check_wall_result(c, &mut fl, &mut tl, what, &key, off, exp, !add, add && n != 0, &r);
+            rule_oracle_days(c, &mut fl, &mut tl, &key, &u, off, add, n, &r);
         } else {
             let add = c.rng.chance(1, 2);
             let months_to_end = if add { (MAX_YEAR as i64 - w.y) * 12 + 12 - w.m } else { (w.y - MIN_YEAR as i64) * 12 + w.m - 1 };
@@ -835,6 +1051,147 @@ pub fn run(c: &mut Ctx) {
             };
             tl.add(&format!("{what}:{}", if n == 0 { "zero" } else if w.d > 28 { "day>28(clamp candidates)" } else { "count" }));
             check_wall_result(c, &mut fl, &mut tl, what, &key, off, exp, false, false, &r);
+            rule_oracle_months(c, &mut fl, &mut tl, &key, &u, off, add, n, &r);
+        }
+    }
+
+    // ---- stepping directed at the exceptions of the pure instant rule (audit 2026-09-30) ---------------------
+    for k in 0..c.n(6_000, 40_000) {
+        let kind = k % 5;
+        let off_out = |c: &mut Ctx, pos: bool| { let o = match c.rng.below(3) { 0 => *c.rng.pick(&[1i32, 59, 60, 3600, 43_200, 86_399]), 1 => c.rng.range(1, 23) as i32 * 3600, _ => c.rng.range(1, 86_399) as i32 }; if pos { o } else { -o } };
+        let frac = gen_frac(c);
+        match kind {
+            0 | 1 => {
+                // days: the stepped instant on the last / first day of the range, the stepped wall clock next to it
+                let add = kind == 0;
+                let kd = c.rng.range(1, 400) as u64;
+                let off = if c.rng.chance(1, 6) { gen_off(c) } else { off_out(c, add) };
+                let d = if add { NaiveDate::MAX - Days::new(kd) } else { NaiveDate::MIN + Days::new(kd) };
+                // a time of day that carries the wall clock over midnight in the direction of the offset (mostly)
+                let secs = if c.rng.chance(1, 5) { gen_secs(c, off) } else if add { (86_400 - off.max(1) as i64 + c.rng.range(0, off.max(1) as i64 - 1)).clamp(0, 86_399) as u32 } else { c.rng.range(0, ((-off).max(1) as i64 - 1).min(86_399)) as u32 };
+                let u = mk_n(d, secs, frac);
+                let n = (kd as i64 + *c.rng.pick(&[0i64, 0, 0, -1, 1])).max(0) as u64;
+                let z = mk_z(&u, off);
+                let r = guard(|| if add { z.checked_add_days(Days::new(n)) } else { z.checked_sub_days(Days::new(n)) });
+                let key = format!("zn.days {} {} {off} {n}", if add { "add" } else { "sub" }, enc_n(&u));
+                c.op(&key, &show_oz(&r));
+                rule_oracle_days(c, &mut fl, &mut tl, &key, &u, off, add, n, &r);
+            }
+            2 | 3 => {
+                // months: wall clock on the first / 31st of a month near the end, stepping onto Jan 1 of MAX_YEAR+1 /
+                // Dec 31 of MIN_YEAR-1
+                let add = kind == 2;
+                let off = if c.rng.chance(1, 6) { gen_off(c) } else { off_out(c, add) };
+                let km = c.rng.range(1, 30);
+                let t = if add { (MAX_YEAR as i64 + 1) * 12 - km } else { (MIN_YEAR as i64 - 1) * 12 + 11 + km };
+                let (y, m) = (t.div_euclid(12), t.rem_euclid(12) + 1);
+                let day = if add { 1 } else { month_len(y, m) as u32 };
+                let tl_secs = if c.rng.chance(1, 5) { gen_secs(c, off) } else if add { c.rng.range(0, (off.max(1) as i64 - 1).min(86_399)) as u32 } else { (86_400 + off.min(-1) as i64 + c.rng.range(0, (-off).max(1) as i64 - 1)).clamp(0, 86_399) as u32 };
+                let Some(ld) = NaiveDate::from_ymd_opt(y as i32, m as u32, day) else { continue };
+                let LocalResult::Single(z) = fo(off).from_local_datetime(&mk_n(ld, tl_secs, frac)) else { continue };
+                let u = z.naive_utc();
+                let n = (km + *c.rng.pick(&[0i64, 0, 0, -1, 1])).max(0) as u32;
+                let r = guard(|| if add { z.checked_add_months(Months::new(n)) } else { z.checked_sub_months(Months::new(n)) });
+                let key = format!("zn.months {} {} {off} {n}", if add { "add" } else { "sub" }, enc_n(&u));
+                c.op(&key, &show_oz(&r));
+                rule_oracle_months(c, &mut fl, &mut tl, &key, &u, off, add, n, &r);
+            }
+            _ => {
+                // months onto the last second of the range with a leap-second representation: returned above MAX_UTC
+                let off = if c.rng.chance(1, 2) { 0 } else { -off_out(c, true) };
+                let km = *c.rng.pick(&[2i64, 4, 5, 7, 9, 11, 12, 14, 24]);
+                let t = (MAX_YEAR as i64) * 12 + 11 - km;
+                let (y, m) = (t.div_euclid(12), t.rem_euclid(12) + 1);
+                let Some(ld) = NaiveDate::from_ymd_opt(y as i32, m as u32, 31) else { continue };
+                let sod = (86_399 + off as i64 + *c.rng.pick(&[0i64, 0, 0, -1])).clamp(0, 86_399) as u32;
+                let fr = if c.rng.chance(3, 4) { 1_000_000_000 + c.rng.nanos() } else { frac };
+                let LocalResult::Single(z) = fo(off).from_local_datetime(&mk_n(ld, sod, fr)) else { continue };
+                let u = z.naive_utc();
+                let n = km as u32;
+                let r = guard(|| z.checked_add_months(Months::new(n)));
+                let key = format!("zn.months add {} {off} {n}", enc_n(&u));
+                c.op(&key, &show_oz(&r));
+                rule_oracle_months(c, &mut fl, &mut tl, &key, &u, off, true, n, &r);
+                // the day stepper filters exactly this value
+                let zd = mk_z(&mk_n(NaiveDate::MAX.pred_opt().unwrap(), u.time().num_seconds_from_midnight(), fr), off);
+                let rd = guard(|| zd.checked_add_days(Days::new(1)));
+                let keyd = format!("zn.days add {} {off} 1", enc_n(&zd.naive_utc()));
+                c.op(&keyd, &show_oz(&rd));
+                rule_oracle_days(c, &mut fl, &mut tl, &keyd, &zd.naive_utc(), off, true, 1, &rd);
+            }
+        }
+    }
+
+    // ---- from_local_datetime / with_ymd_and_hms exactly ON the boundary, for EVERY offset (audit 2026-09-30) ------
+    // wall clock = MIN_UTC + off + d resp. MAX_UTC + off + d seconds, d in {-1, 0, 1}: the UTC reading is one second
+    // outside / exactly on / one second inside the range end
+    {
+        let edge_local = |hi_end: bool, off: i32, d: i32| -> Option<(NaiveDate, u32)> {
+            if hi_end {
+                let sod = 86_399 + off + d;
+                if sod >= 86_400 { None } else if sod < 0 { Some((NaiveDate::MAX.pred_opt().unwrap(), (sod + 86_400) as u32)) } else { Some((NaiveDate::MAX, sod as u32)) }
+            } else {
+                let sod = off + d;
+                if sod < 0 { None } else if sod >= 86_400 { Some((NaiveDate::MIN.succ_opt().unwrap(), (sod - 86_400) as u32)) } else { Some((NaiveDate::MIN, sod as u32)) }
+            }
+        };
+        let mut lo = -86_399i32;
+        while lo <= 86_399 {
+            let hi = (lo + 999).min(86_399);
+            let mut h = (1i64, 1i64);
+            for off in lo..=hi {
+                let mut obs: Vec<i64> = vec![];
+                for hi_end in [false, true] {
+                    for d in [-1, 0, 1] {
+                        let Some((date, sod)) = edge_local(hi_end, off, d) else { obs.push(-2); continue };
+                        for frac in [0u32, 1_000_000_000] {
+                            let l = mk_n(date, sod, frac);
+                            let r = guard(|| lr(fo(off).from_local_datetime(&l)).map_err(|_| ())).and_then(|x| x);
+                            check_from_local(c, &mut fl, &mut tl, &l, off, &r);
+                            obs.extend(fl_list(off, &l));
+                            // the exact expectation at the boundary: inside iff d points inwards (or is 0)
+                            let inside = if hi_end { d <= 0 } else { d >= 0 };
+                            if matches!(r, Ok(Some(_))) != inside {
+                                fl.hit(c, "from_local_datetime at the range end must fail exactly when the UTC reading is outside", &format!("zn.fl {} {off}", enc_n(&l)));
+                            }
+                        }
+                        let (y, m, dd) = (date.year(), date.month(), date.day());
+                        let r = guard(|| lr(fo(off).with_ymd_and_hms(y, m, dd, sod / 3600, sod / 60 % 60, sod % 60)).map_err(|_| ())).and_then(|x| x);
+                        let key = format!("zn.ymd {off} {y} {m} {dd} {} {} {}", sod / 3600, sod / 60 % 60, sod % 60);
+                        check_wall_result(c, &mut fl, &mut tl, "with_ymd_and_hms(boundary)", &key, off, Some((day_num(y as i64, m as i64, dd as i64), sod as i64, 0)), false, false, &r);
+                        match &r {
+                            Ok(Some(z)) => { let (yy, s, f) = raw_n(&z.naive_utc()); obs.extend([1, yy, s, f]); }
+                            Ok(None) => obs.push(0),
+                            Err(()) => obs.push(-1),
+                        }
+                    }
+                }
+                h = mix_l(h, &obs);
+            }
+            c.op(&format!("znf.edge {lo} {hi}"), &format!("{} {}", h.0, h.1));
+            c.count_n("exhaustive:(range end, offset, delta) boundary wall clocks", ((hi - lo + 1) * 6) as u64);
+            lo = hi + 1;
+        }
+    }
+
+    // ---- formatting, derived views, zone changes: headroom-directed + random (audit 2026-09-30) -----------------
+    for k in 0..c.n(30_000, 200_000) {
+        let (u, off) = if k % 2 == 0 {
+            let base = end_value(c.rng.below(4) as usize);
+            let off = gen_off(c);
+            if c.rng.chance(1, 3) { (base, off) } else { (mk_n(base.date(), gen_secs(c, off), gen_frac(c)), off) }
+        } else if k % 16 == 1 {
+            // wall-clock years around 0 / 9999 / 10000 (RFC 2822 panic boundary, signed year form)
+            let y = *c.rng.pick(&[-1i32, 0, 1, 9999, 10_000, 99_999, 100_000, -9999, -10_000]);
+            let (m, d) = *c.rng.pick(&[(1u32, 1u32), (12, 31)]);
+            let off = gen_off(c);
+            (mk_n(NaiveDate::from_ymd_opt(y, m, d).unwrap(), gen_secs(c, off), gen_frac(c)), off)
+        } else {
+            gen_value(c)
+        };
+        check_texts_and_views(c, &mut fl, &mut tl, &u, off);
+        if k < 2 {
+            c.sample(&format!("znf.text {} {off} -> {}", enc_n(&u), mk_z(&u, off)));
         }
     }
 
